@@ -852,3 +852,36 @@ func writeBatchInvExt(repoRoot, srcRoot, verifRoot string, check bool) int {
 	}
 	return stale
 }
+
+// ---------------- Expt: the seed power (C05) ----------------
+
+// exptSeeds: absolute value of the seed each Expt is documented to raise to (curve.go / the comment of the function).
+var exptSeeds = map[string][2]string{
+	"./ecc/bn254/internal/fptower":     {"E12", "4965661367192848881"},
+	"./ecc/bls12-377/internal/fptower": {"E12", "9586122913090633729"},
+}
+
+func exptPkgs(srcRoot string) []string {
+	var out []string
+	for pk := range exptSeeds {
+		if _, err := os.Stat(filepath.Join(srcRoot, strings.TrimPrefix(pk, "./"))); err == nil {
+			out = append(out, pk)
+		}
+	}
+	sort.Strings(out)
+	return out
+}
+
+func writeExpt(repoRoot, srcRoot, verifRoot string, check bool) int {
+	b, err := os.ReadFile(filepath.Join(verifRoot, "contracts", "pairing", "expt.go.tmpl"))
+	if err != nil {
+		return 0
+	}
+	stale := 0
+	for _, pk := range exptPkgs(srcRoot) {
+		c := exptSeeds[pk]
+		s := strings.ReplaceAll(strings.ReplaceAll(string(b), "TYPE", c[0]), "SEED", c[1])
+		stale += installText(filepath.Join(repoRoot, strings.TrimPrefix(pk, "./"), "zz_verif_contracts_expt.go"), s, check)
+	}
+	return stale
+}
